@@ -232,6 +232,11 @@ func init() {
 				return "", err
 			}
 			sb.WriteString("\n" + s)
+			if ty == "month" {
+				// two shapes of the month slot rule are understood (they agree on every timestamp of a
+				// family in UTC): `((ts-base) % OneDay) / interval` and `(ts-base) / interval`
+				fmt.Fprintf(&sb, "\n/-- the month-type slot is the plain quotient (no `%% OneDay`) -/\ndef monthSlotIsQuotient : Bool := %v\n", !strings.Contains(s, "Int.tmod"))
+			}
 		}
 		// Interval.Type(): the switch `case i.Int64() >= A: return Year; case i.Int64() >= B: return Month; default: return Day`
 		_, itf, err := ParseFile(repo, "pkg/timeutil/interval.go")
